@@ -9,7 +9,10 @@ import NoKVModel.Wal.RecordLemmas
 namespace NoKV.Wal
 
 theorem flipByte_spec : ∀ x, x < 256 → ∀ k, k < 8 → flipByte x k < 256 ∧ flipByte x k ≠ x := by
-  decide +kernel
+  intro x hx k hk
+  have hk' : k = 0 ∨ k = 1 ∨ k = 2 ∨ k = 3 ∨ k = 4 ∨ k = 5 ∨ k = 6 ∨ k = 7 := by omega
+  rcases hk' with rfl|rfl|rfl|rfl|rfl|rfl|rfl|rfl <;>
+    (simp only [flipByte, Nat.reducePow]; split <;> omega)
 
 theorem flipBitAt_eq (b : Bytes) (bit : Nat) (h : bit / 8 < b.length) :
     ∃ pre x suf, b = pre ++ x :: suf ∧ pre.length = bit / 8 ∧
@@ -79,5 +82,77 @@ theorem scan_of_err (c : WalCfg) (crc : Bytes → Nat) (step : Nat) (b : Bytes) 
     (h : decodeOne c crc b = .err e) : scan c crc step b = ([], 0, e) := by
   unfold scan
   simp only [scanFuel, h]
+
+/-! ### flips positioned inside a concatenation -/
+
+theorem flipBitAt_at (pre suf : Bytes) (x bit : Nat) (h : pre.length = bit / 8) :
+    flipBitAt (pre ++ x :: suf) bit = pre ++ flipByte x (bit % 8) :: suf := by
+  unfold flipBitAt
+  rw [← h]
+  simp
+
+theorem flipBitAt_length (b : Bytes) (bit : Nat) : (flipBitAt b bit).length = b.length := by
+  by_cases h : bit / 8 < b.length
+  · obtain ⟨p, x, s, he, _, hf⟩ := flipBitAt_eq b bit h
+    rw [hf, he]; simp
+  · unfold flipBitAt
+    rw [List.drop_of_length_le (by omega), List.take_of_length_le (by omega)]
+    simp
+
+theorem flipBitAt_append_left (a b : Bytes) (bit : Nat) (h : bit / 8 < a.length) :
+    flipBitAt (a ++ b) bit = flipBitAt a bit ++ b := by
+  obtain ⟨p, x, s, he, hp, hf⟩ := flipBitAt_eq a bit h
+  rw [hf, he]
+  have : (p ++ x :: s) ++ b = p ++ x :: (s ++ b) := by simp
+  rw [this, flipBitAt_at p (s ++ b) x bit hp]
+  simp
+
+theorem flipBitAt_append_right (a b : Bytes) (bit : Nat) (h : a.length ≤ bit / 8) :
+    flipBitAt (a ++ b) bit = a ++ flipBitAt b (bit - 8 * a.length) := by
+  by_cases hb : (bit - 8 * a.length) / 8 < b.length
+  · obtain ⟨p, x, s, he, hp, hf⟩ := flipBitAt_eq b (bit - 8 * a.length) hb
+    rw [hf, he]
+    have e1 : a ++ (p ++ x :: s) = (a ++ p) ++ x :: s := by simp
+    have hl : (a ++ p).length = bit / 8 := by rw [List.length_append, hp]; omega
+    rw [e1, flipBitAt_at (a ++ p) s x bit hl]
+    have : (bit - 8 * a.length) % 8 = bit % 8 := by omega
+    rw [this]; simp
+  · have h1 : ¬ bit / 8 < (a ++ b).length := by rw [List.length_append]; omega
+    unfold flipBitAt
+    rw [List.drop_of_length_le (by omega), List.take_of_length_le (by omega)]
+    rw [List.drop_of_length_le (by omega), List.take_of_length_le (by omega)]
+    simp
+
+/-- inverting a bit of the 4-byte length field changes the length it denotes -/
+theorem rd32_flip_ne (L bit : Nat) (hbit : bit / 8 < 4) (hL : L < 4294967296) :
+    rd32 (flipBitAt (be32 L) bit) ≠ L := by
+  obtain ⟨p, x, s, he, _, hf⟩ := flipBitAt_eq (be32 L) bit (by rw [be32_length]; exact hbit)
+  have hx : x < 256 := by
+    have : x ∈ be32 L := by rw [he]; simp
+    simp only [be32, List.mem_cons, List.not_mem_nil, or_false] at this
+    omega
+  obtain ⟨_, h2⟩ := flipByte_spec x hx (bit % 8) (Nat.mod_lt _ (by omega))
+  have hv : rd32 (be32 L) = L := by rw [rd32_be32, Nat.mod_eq_of_lt hL]
+  rw [hf]
+  intro hcon
+  rw [← hv, he] at hcon
+  exact rd32_subst p s _ _ h2 hcon
+
+/-- `DecodeRecord` on any 4 header bytes followed by `tail` -/
+theorem decodeOne_hdr (c : WalCfg) (crc : Bytes → Nat) (hdr tail : Bytes) (hh : hdr.length = 4) :
+    decodeOne c crc (hdr ++ tail) =
+      if rd32 hdr = 0 then .err .empty
+      else if tail.length < rd32 hdr then .err .part
+      else if (tail.drop (rd32 hdr)).length < 4 then .err .part
+      else if c.crcChecked ∧ rd32 ((tail.drop (rd32 hdr)).take 4) ≠ crc (tail.take (rd32 hdr)) % 4294967296 then .err .badcrc
+      else .ok ⟨(tail.take (rd32 hdr)).headD 0, (tail.take (rd32 hdr)).tail⟩ (rd32 hdr) ((tail.drop (rd32 hdr)).drop 4) := by
+  unfold decodeOne
+  have hl : (hdr ++ tail).length = 4 + tail.length := by simp [hh]
+  rw [if_neg (by omega), if_neg (by omega)]
+  have ht : (hdr ++ tail).take 4 = hdr := by
+    rw [List.take_append_of_le_length (by omega), List.take_of_length_le (by omega)]
+  have hd : (hdr ++ tail).drop 4 = tail := by
+    rw [List.drop_append_of_le_length (by omega), List.drop_of_length_le (by omega)]; simp
+  rw [ht, hd]
 
 end NoKV.Wal
